@@ -19,7 +19,9 @@ type Misuse struct {
 	Service func() ([]*spec.Message, *spec.Service)
 }
 
-func child() *spec.Message { return spec.M("Child", spec.F("street", "string"), spec.F("city", "string")) }
+func child() *spec.Message {
+	return spec.M("Child", spec.F("street", "string"), spec.F("city", "string"))
+}
 
 // Misuses lists every documented rule of property C12.
 func Misuses() []Misuse { return misusesFixed() }
